@@ -15,8 +15,192 @@ import (
 	"go/ast"
 	"go/constant"
 	"go/token"
+	"go/types"
+	"regexp"
+	"strconv"
 	"strings"
 )
+
+// The poll loop: the goroutine at the end of ClientDnsConnection.Handshake,
+//
+//	go func() { …; for !dc.Closed() { jitter := rand.Intn(N) - M; duration := time.Duration(dc.selectTimeout+jitter+(errCount*B)) * time.<Unit>; …
+//	    select { case <-time.After(duration): if !dc.lastQuery.Add(duration).After(time.Now()) { …dc.SendAndReceive(<arg>)… } } } }()
+//
+//   c07PollArg    what the loop hands to SendAndReceive: 0 = dc.out.NextChunk() (directly, or through a variable assigned from it in
+//                 the statement before), 1 = nil
+//   c07PollStops  statements in the loop body that leave the loop (return, goto, a break that reaches the loop)
+//   c07PollUnitUs / c07PollBackoff / c07PollJitterN / c07PollJitterOff   the sleep
+type c07PollFacts struct {
+	arg, stops, unitUs, backoff, jitterN, jitterOff int
+}
+
+func c07PollLoop(fd *ast.FuncDecl) (pf c07PollFacts, why string) {
+	var lits []*ast.FuncLit
+	ast.Inspect(fd.Body, func(x ast.Node) bool {
+		if g, ok := x.(*ast.GoStmt); ok {
+			if fl, ok := g.Call.Fun.(*ast.FuncLit); ok {
+				lits = append(lits, fl)
+			}
+		}
+		return true
+	})
+	var loop *ast.ForStmt
+	for _, fl := range lits {
+		for _, st := range fl.Body.List {
+			if fs, ok := st.(*ast.ForStmt); ok && fs.Init == nil && fs.Post == nil && fs.Cond != nil && types.ExprString(fs.Cond) == "!dc.Closed()" {
+				if loop != nil {
+					return pf, "more than one goroutine with a `for !dc.Closed()` loop"
+				}
+				loop = fs
+			}
+		}
+	}
+	if loop == nil {
+		return pf, "no `go func() { … for !dc.Closed() { … } }()` in Handshake"
+	}
+	// walk the loop body with the chain of enclosing nodes
+	var stack []ast.Node
+	var sendChain []ast.Node
+	var send *ast.CallExpr
+	sends := 0
+	bad := ""
+	ast.Inspect(loop.Body, func(x ast.Node) bool {
+		if x == nil {
+			stack = stack[:len(stack)-1]
+			return true
+		}
+		switch n := x.(type) {
+		case *ast.FuncLit:
+			bad = "a function literal inside the loop"
+		case *ast.ReturnStmt:
+			pf.stops++
+		case *ast.BranchStmt:
+			inner := false // enclosed by something an unlabelled break / continue refers to instead of the loop
+			for _, a := range stack {
+				switch a.(type) {
+				case *ast.ForStmt, *ast.RangeStmt:
+					inner = true
+				case *ast.SelectStmt, *ast.SwitchStmt, *ast.TypeSwitchStmt:
+					if n.Tok == token.BREAK {
+						inner = true
+					}
+				}
+			}
+			switch {
+			case n.Tok == token.GOTO, n.Tok == token.BREAK && (n.Label != nil || !inner):
+				pf.stops++
+			case n.Tok == token.CONTINUE && (n.Label != nil || !inner):
+				bad = "a `continue` that skips the rest of a turn"
+			}
+		case *ast.CallExpr:
+			switch types.ExprString(n.Fun) {
+			case "dc.SendAndReceive":
+				sends++
+				send = n
+				sendChain = append([]ast.Node{}, stack...)
+			case "panic", "os.Exit", "runtime.Goexit", "log.Fatalf", "log.Fatal":
+				pf.stops++
+			}
+		}
+		stack = append(stack, x)
+		return true
+	})
+	if bad != "" {
+		return pf, bad
+	}
+	if sends != 1 || len(send.Args) != 1 {
+		return pf, fmt.Sprintf("%d calls of dc.SendAndReceive in the loop (expected one, with one argument)", sends)
+	}
+	// the send is reached on every turn whose timer fired and that saw no query for `duration`: nothing else may guard it
+	guards := 0
+	var holder ast.Stmt  // the statement of the innermost block that contains the call
+	var block *ast.BlockStmt
+	for i, a := range sendChain {
+		switch n := a.(type) {
+		case *ast.BlockStmt:
+			block = n
+			holder = nil
+			if i+1 < len(sendChain) {
+				holder, _ = sendChain[i+1].(ast.Stmt)
+			}
+		case *ast.SelectStmt:
+			if len(n.Body.List) != 1 {
+				return pf, "the select of the loop has more than one case"
+			}
+		case *ast.CommClause:
+			es, ok := n.Comm.(*ast.ExprStmt)
+			if !ok || types.ExprString(es.X) != "<-time.After(duration)" {
+				return pf, "the select case is not `<-time.After(duration)`"
+			}
+		case *ast.IfStmt:
+			inInit := i+1 < len(sendChain) && n.Init != nil && sendChain[i+1] == ast.Node(n.Init)
+			if inInit {
+				break // `if err := dc.SendAndReceive(..); …`
+			}
+			if types.ExprString(n.Cond) != "!dc.lastQuery.Add(duration).After(time.Now())" || i+1 >= len(sendChain) || sendChain[i+1] != ast.Node(n.Body) {
+				return pf, "the send is guarded by `" + types.ExprString(n.Cond) + "`"
+			}
+			guards++
+		case *ast.AssignStmt, *ast.ExprStmt:
+		default:
+			return pf, fmt.Sprintf("the send sits inside a %T", a)
+		}
+	}
+	if guards != 1 {
+		return pf, "the `no query for that long` guard is missing or doubled"
+	}
+	switch a := types.ExprString(send.Args[0]); {
+	case a == "nil":
+		pf.arg = 1
+	case a == "dc.out.NextChunk()":
+		pf.arg = 0
+	default:
+		pf.arg = -1
+		id, isId := send.Args[0].(*ast.Ident)
+		if isId && block != nil && holder != nil {
+			for i, st := range block.List {
+				if st == holder && i > 0 {
+					if as, ok := block.List[i-1].(*ast.AssignStmt); ok && len(as.Lhs) == 1 && len(as.Rhs) == 1 &&
+						types.ExprString(as.Lhs[0]) == id.Name && types.ExprString(as.Rhs[0]) == "dc.out.NextChunk()" {
+						pf.arg = 0
+					}
+				}
+			}
+		}
+		if pf.arg < 0 {
+			return pf, "the argument of dc.SendAndReceive is `" + a + "`"
+		}
+	}
+	// the sleep
+	reJ := regexp.MustCompile(`^rand\.Intn\((\d+)\) - (\d+)$`)
+	reD := regexp.MustCompile(`^time\.Duration\(dc\.selectTimeout \+ jitter \+ \(errCount \* (\d+)\)\) \* time\.(Microsecond|Millisecond|Second)$`)
+	gotJ, gotD := false, false
+	for _, st := range loop.Body.List {
+		as, ok := st.(*ast.AssignStmt)
+		if !ok || len(as.Lhs) != 1 || len(as.Rhs) != 1 {
+			continue
+		}
+		rhs := types.ExprString(as.Rhs[0])
+		switch types.ExprString(as.Lhs[0]) {
+		case "jitter":
+			if m := reJ.FindStringSubmatch(rhs); m != nil {
+				pf.jitterN, _ = strconv.Atoi(m[1])
+				pf.jitterOff, _ = strconv.Atoi(m[2])
+				gotJ = true
+			}
+		case "duration":
+			if m := reD.FindStringSubmatch(rhs); m != nil {
+				pf.backoff, _ = strconv.Atoi(m[1])
+				pf.unitUs = map[string]int{"Microsecond": 1, "Millisecond": 1000, "Second": 1000000}[m[2]]
+				gotD = true
+			}
+		}
+	}
+	if !gotJ || !gotD {
+		return pf, "the sleep (`jitter := rand.Intn(N) - M`, `duration := time.Duration(dc.selectTimeout+jitter+(errCount*B)) * time.<Unit>`) is not in the recognised shape"
+	}
+	return pf, ""
+}
 
 func c07Sel(e ast.Expr) string {
 	switch x := e.(type) {
@@ -367,6 +551,21 @@ func init() {
 			}
 			fmt.Fprintf(b, "/-- ClientDnsConnection.SendAndReceive: `for i := 1; i <= tries; i++` -/\ndef c07Tries : Nat := %d\n", tries)
 			fmt.Fprintf(b, "/-- how SendAndReceive recognises a timed-out Query (whose error QueryWithData has wrapped):\n    0 = `err == smux.ErrTimeout` (identity with the sentinel: never true for a wrapped error), 1 = `isTimeout(err)` (cause is a net timeout or the sentinel) -/\ndef c07TimeoutTest : Nat := %d\n", test)
+		}
+		// the poll loop of Handshake's goroutine
+		{
+			f := parse("internal/streams/dns/dns_client_connection.go")
+			pf, why := c07PollFacts{arg: 99, stops: 99}, "ClientDnsConnection.Handshake not found"
+			if fd := findFunc(f, "ClientDnsConnection", "Handshake"); fd != nil {
+				pf, why = c07PollLoop(fd)
+			}
+			if why != "" {
+				fail("C07: the poll loop at the end of ClientDnsConnection.Handshake is not in a recognised shape: %s", why)
+				pf.arg, pf.stops = 99, 99 // nothing the model knows
+			}
+			fmt.Fprintf(b, "/-- the poll loop of the goroutine `Handshake` starts: what a turn hands to `dc.SendAndReceive`\n    (0 = `dc.out.NextChunk()`: the oldest unacknowledged fragment, nil when none; 1 = `nil`: a bare poll) -/\ndef c07PollArg : Nat := %d\n", pf.arg)
+			fmt.Fprintf(b, "/-- statements in that loop's body which leave the loop (return / goto / break reaching it); its condition is `!dc.Closed()` -/\ndef c07PollStops : Nat := %d\n", pf.stops)
+			fmt.Fprintf(b, "/-- the loop's sleep: `jitter := rand.Intn(N) - M; duration := time.Duration(dc.selectTimeout+jitter+(errCount*B)) * unit`\n    (unit in microseconds), a turn sends when no query was made for `duration` -/\ndef c07PollUnitUs : Nat := %d\ndef c07PollBackoff : Nat := %d\ndef c07PollJitterN : Nat := %d\ndef c07PollJitterOff : Nat := %d\n", pf.unitUs, pf.backoff, pf.jitterN, pf.jitterOff)
 		}
 		if len(offs) == 2 {
 			if offs[0] != offs[1] {
